@@ -71,7 +71,27 @@ int main() {
         ++cmd;
         try {
             const std::string& c = t[0];
-            if (c == "const") H.push_back(libfive_tree_const(of_hex32(t[1])));
+            if (c == "capi") { /* marker for the model: handle flags do not cross the C API */ }
+            else if (c == "deepchain") {
+                // deepchain N kind : N-node chain / fan destroyed on the current (small) stack
+                long n = std::stol(t[1]); int kind = std::stoi(t[2]);
+                libfive_tree x = libfive_tree_x();
+                libfive_tree cur = libfive_tree_x();
+                for (long i = 0; i < n; ++i) {
+                    libfive_tree nxt;
+                    if (kind == 0) nxt = libfive_tree_unary(Opcode::OP_SIN, cur);
+                    else if (kind == 1) nxt = libfive_tree_binary(Opcode::OP_ADD, cur, x);
+                    else if (kind == 2) nxt = libfive_tree_binary(Opcode::OP_MIN, x, cur);
+                    else nxt = libfive_tree_remap(cur, cur, x, x);
+                    libfive_tree_delete(cur);
+                    cur = nxt;
+                }
+                long before = live() - base;
+                libfive_tree_delete(cur);
+                libfive_tree_delete(x);
+                out("DEEP built=" + std::to_string(before) + " live=" + std::to_string(live() - base));
+            }
+            else if (c == "const") H.push_back(libfive_tree_const(of_hex32(t[1])));
             else if (c == "x") H.push_back(libfive_tree_x());
             else if (c == "y") H.push_back(libfive_tree_y());
             else if (c == "z") H.push_back(libfive_tree_z());
